@@ -999,6 +999,13 @@ def call_builtin(I, fv: BoundV, args: list, kwargs: dict, st, node=None) -> list
                 if h.kind == "set":
                     h.items = dedupe(h.items)
                 return [(None, st)]
+            if h.kind == "list" and not h.setlike and name == "popleft" and not args:  # collections.deque
+                if not h.items:
+                    return [(Raised("IndexError", node), st)]
+                return [(h.items.pop(0), st)]
+            if h.kind == "list" and not h.setlike and name == "appendleft" and len(args) == 1:
+                h.items.insert(0, args[0])
+                return [(None, st)]
             if name == "pop" and h.cls == "textwords":
                 return [(h.items[0], st)]
             if name == "pop":
@@ -2151,6 +2158,18 @@ def _ext_defaultdict(I, args, kwargs, st, node):
     return [(st.alloc(HObj("dict", fields=fields, default=args[0] if args else None)), st)]
 
 
+def _ext_deque(I, args, kwargs, st, node):
+    """collections.deque([iterable]): a heap list (append / appendleft / pop / popleft / extend / len / bool / iteration); a bounded deque is not modelled."""
+    if len(args) > 1 or kwargs.get("maxlen") is not None:
+        st.note("bounded collections.deque")
+        return [(Unknown("deque"), st)]
+    items = iter_values(I, args[0], st) if args else []
+    if items is None:
+        st.note("deque from abstract iterable")
+        return [(Unknown("deque"), st)]
+    return [(st.alloc(HObj("list", items=list(items))), st)]
+
+
 def _ext_ordereddict(I, args, kwargs, st, node):
     d = _as_dict(args[0], st) if args else {}
     if d is None:
@@ -2172,6 +2191,7 @@ EXT_CALLS = {
     "ext:operator.itemgetter": _ext_itemgetter,
     "ext:collections.defaultdict": _ext_defaultdict,
     "ext:collections.OrderedDict": _ext_ordereddict,
+    "ext:collections.deque": _ext_deque,
     "ext:itertools.takewhile": _ext_takewhile,
     "ext:itertools.dropwhile": _ext_dropwhile,
     "ext:itertools.islice": _ext_islice,
